@@ -23,14 +23,14 @@ def confirm_shell(prop, ab, wt, src, sid, patch):
     rec["files_touched"] = touched
     if any(not (t.startswith("src/") or t == "Cargo.toml") for t in touched):
         print("REJECT: patch touches", touched); return 1
-    rc0, o0 = sh(["sh", demo, wt])
+    rc0, o0 = sh(["bash", demo, wt])
     rec["demo_on_clean_tree"] = {"rc": rc0}
     if rc0 != 0:
         print("REJECT: demo.sh fails on the clean tree", o0[-1200:]); return 1
     rc, o = sh(["git", "apply", patch], cwd=wt)
     if rc != 0:
         print("REJECT: patch does not apply", o); return 1
-    rc1, o1 = sh(["sh", demo, wt])
+    rc1, o1 = sh(["bash", demo, wt])
     rec["demo_with_change"] = {"rc": rc1, "tail": o1[-400:]}
     if rc1 == 0:
         print("REJECT: demo.sh passes with the change"); sh(["git", "checkout", "--", "."], cwd=wt); return 1
